@@ -1,6 +1,7 @@
 package main
 
 import (
+	"bytes"
 	"fmt"
 	"math/rand"
 	"os"
@@ -41,6 +42,45 @@ func openDump(path string) (string, string, error) {
 	}
 	defer db.Close()
 	return hashStr(dumpDB(db)), checkDB(db), nil
+}
+
+// surgeryModel runs the byte-level model of a repair command (Model/Surgery.lean) on the same
+// source and compares its output file byte for byte with what the command-line tool wrote; the
+// hypothesis of the C20Surgery theorems (metaPagesOk) must hold for every file of a history.
+func surgeryModel(rep *Report, dir, cmd, src, cliOut string, rp map[string]any) {
+	if *flagModel == "" {
+		return
+	}
+	mo := filepath.Join(dir, "model-"+cmd+".db")
+	_ = os.Remove(mo)
+	defer os.Remove(mo)
+	out, err := exec.Command(*flagModel, "surgery", cmd, src, mo, fmt.Sprint(os.Getpagesize())).Output()
+	line := strings.TrimSpace(string(out))
+	rep.Evaluations++
+	if err != nil || !strings.HasPrefix(line, "ok ") {
+		rep.Disagree++
+		rep.violation("C20", "correspondence", "surgery-model-vs-cli:"+cmd, fmt.Sprintf("the command succeeds, the model of it says %q (%v)", line, err), rp)
+		return
+	}
+	if !strings.Contains(line, "hyp=true") {
+		rep.violation("C20", "correspondence", "surgery-hypothesis:"+cmd, fmt.Sprintf("the theorems' hypothesis metaPagesOk does not hold for a file taken after a commit: %s", line), rp)
+	}
+	a, e1 := os.ReadFile(cliOut)
+	b, e2 := os.ReadFile(mo)
+	if e1 != nil || e2 != nil {
+		rep.violation("C20", "correspondence", "surgery-model-vs-cli:"+cmd, fmt.Sprintf("unreadable outputs: %v %v", e1, e2), rp)
+		return
+	}
+	if !bytes.Equal(a, b) {
+		at := 0
+		for at < len(a) && at < len(b) && a[at] == b[at] {
+			at++
+		}
+		rep.Disagree++
+		rep.violation("C20", "correspondence", "surgery-model-vs-cli:"+cmd, fmt.Sprintf("the tool's output (%d bytes) and the model's (%d bytes) differ first at offset %d", len(a), len(b), at), rp)
+		return
+	}
+	rep.count("model-" + cmd)
 }
 
 func surgeryEngine() {
@@ -102,6 +142,7 @@ func surgeryEngine() {
 					}
 				}
 				rep.count("revert")
+				surgeryModel(rep, dir, "revert", snap, out, rp(i, "revert-meta-page"))
 			}
 			if fileHash(snap) != h0 {
 				rep.violation("C20", "monitor", "source-modified", fmt.Sprintf("after op %d: revert-meta-page changed its source file", i), rp(i, "revert-meta-page"))
@@ -122,6 +163,7 @@ func surgeryEngine() {
 						rep.violation("C20", "monitor", "abandon-keeps-freelist", fmt.Sprintf("after op %d: the abandoned file still references a freelist page: %v", i, dec[:min(len(dec), 4)]), rp(i, "freelist abandon"))
 					}
 					rep.count("abandon")
+					surgeryModel(rep, dir, "clear", snap, ab, rp(i, "freelist abandon"))
 					// rebuild from the abandoned file
 					rb := filepath.Join(dir, "rebuilt.db")
 					_ = os.Remove(rb)
